@@ -13,7 +13,7 @@ async with self._lock:                                   # asyncio.Lock: FIFO
 return await self._function(*args, **kwargs)
 ```
 
-Time is exact `Nat` ticks.  The lock is FIFO and is held from acquisition to the `append`, so the
+Time is exact `Nat` ticks (a tick is a quarter second, see `ticksPerSecond`).  The lock is FIFO and is held from acquisition to the `append`, so the
 critical sections run one after the other in arrival order, the `i`-th acquiring at
 `max(arrival i, release of the (i-1)-th)`; the release instant is the instant of the `append`,
 which is also the instant the wrapped function starts (nothing suspends in between).  The wrapped
@@ -57,14 +57,22 @@ def run (limit P : Nat) : St → List Nat → List Res
 
 def init : St := { entries := [], lockFree := 0 }
 
+/-- model time unit: one tick = a quarter of a second (every instant the correspondence uses is a
+multiple of 0.25 s, exact in binary floating point) -/
+def ticksPerSecond : Nat := 4
+
 /-- the `period` argument by runtime shape (`match period: case timedelta() …; case seconds …`) -/
 inductive PeriodArg where
-  | seconds (n : Nat)       -- int or float
-  | timedelta (n : Nat)     -- `timedelta(seconds=n)`
+  | float (quarters : Nat)                   -- the float `quarters * 0.25` (seconds)
+  | int (seconds : Nat)                      -- an int number of seconds
+  | timedelta (days seconds millis : Nat)    -- `timedelta(days=…, seconds=…, milliseconds=…)`
 
-def PeriodArg.toSeconds : PeriodArg → Nat
-  | .seconds n => n
-  | .timedelta n => n       -- `delta.total_seconds()`
+/-- the period in ticks.  `delta.total_seconds()` = `days * 86400 + seconds + millis / 1000`: days
+and the sub-second part both count (exact here when `millis` is a multiple of 250). -/
+def PeriodArg.toTicks : PeriodArg → Nat
+  | .float q => q
+  | .int n => n * ticksPerSecond
+  | .timedelta d s ms => (d * 86400 + s) * ticksPerSecond + ms / 250
 
 /-- what the wrapped function does when invoked -/
 inductive FnOut where
